@@ -257,6 +257,18 @@ def check_runtime_registration(ctx):
                         break
                 if db.GetDefaultCategory("bvu") != "bv own category" or o0.GetCategory() != "bv own category":
                     ctx.record("runtime_registration_default_category", case, "order %r: default category of 'bvu' is %r, Scalar(v,u) has %r" % (order, db.GetDefaultCategory("bvu"), o0.GetCategory()))
+                # the unit's category is registered once more with the identical definition (applications re-declare their
+                # categories): objects built on a quantity taken before equal the forms built afterwards, and the forms
+                # built while another database of the same content is current equal those built here
+                q_before = ObtainQuantity("bvu", "bv own category")
+                s_before = Scalar(1.5, "bvu")
+                db.AddCategory("bv own category", "bvq", override=True)
+                after = [("(q taken before,v)", Scalar(q_before, 1.5)), ("(v,u) after", Scalar(1.5, "bvu")), ("(v,u,c) after", Scalar(1.5, "bvu", "bv own category")), ("eval(repr)", eval(repr(Scalar(1.5, "bvu", "bv own category")), {"Scalar": Scalar}))]
+                for name, o in after:
+                    ctx.ev()
+                    if not (o == s_before and s_before == o):
+                        ctx.record("forms_not_equal_across_an_identical_re_registration:%s" % name, case, "order %r: Scalar(v,u) built before the category was registered again with the same definition is %r, %s is %r: not equal" % (order, s_before, name, o))
+                        break
                 arrs = [Array([1.5], "bvu"), Array([1.5], "bvu", "bv own category")]
                 if not (arrs[0] == arrs[1]):
                     ctx.record("runtime_registration_forms_not_equal:Array", case, "order %r: Array(values,u) = %r, Array(values,u,c) = %r" % (order, arrs[0], arrs[1]))
